@@ -20,6 +20,7 @@ KINDS = ['combined', 'insertions', 'deletions']
 INCLUDES = ['all', 'combined', 'insertions', 'deletions', '', 'both', 'ALL', 'combined,insertions', 'none']
 
 MALFORMED = [
+    '<html><head><template><title>in template</title></template></head><body>hi</body></html>', '<body><template><title>T</title></template><p>x</p><title>late title</title></body>',
     '<html><head></head><body><svg><title>Icon</title><circle r="1"/></svg>hi</body></html>', '<html><head><title>Real</title></head><body><math><title>m</title></math><svg><title>Logo</title></svg>x</body></html>',
     '', ' ', '\n\t ', 'plain text only', '<', '>', '<<<>>>', '</p>', '<p', '<p><b><i>unclosed', '</div></div>text', '<table><tr><td>cell<p>para</table>after',
     '<b><p>misnested</b></p>', '<a href="x"><a href="y">nested</a></a>', '<select><option>a<option>b</select><optgroup>', '<title>only title</title>',
